@@ -297,13 +297,13 @@ PreMissingIndex(st, op) ==
   /\ ReadFrom(st, st.env[op.p.base], Prefix(op.p.sels)).t = "missing"
 
 \* apply op to all three semantics
-Apply(h, c, g, o, op) ==
-  LET rI == Step("I", c["I"], op)
-      skip == SkipOf(c["I"], op)
+Apply2(h, c, g, o, op, rI) ==
+  LET skip == SkipOf(c["I"], op)
       stepG(sem) == IF g[sem] # "ok" THEN [st |-> c[sem], res |-> Missing, status |-> IF g[sem] = "wild" THEN "wild" ELSE "dead"]
                     ELSE LET r == Step(sem, c[sem], op) IN IF r.status = "open" THEN [r EXCEPT !.status = "wild"] ELSE r
       r0 == stepG("G0")
-      r1 == stepG("G1")
+      \* without a padding read so far and none in this operation the two coincide
+      r1 == IF c["G1"] = c["G0"] /\ g["G1"] = g["G0"] /\ ReadPaths(op) = {} THEN r0 ELSE stepG("G1")
       eI == Expect("I", rI.status, rI.st, rI.res)
       e0 == Expect("G0", r0.status, r0.st, r0.res)
       e1 == Expect("G1", r1.status, r1.st, r1.res)
@@ -318,7 +318,9 @@ Apply(h, c, g, o, op) ==
       law |-> StepLaws(c["I"], op, rI)
               \cup V("agree", r0.status \notin {"wild", "dead"} /\ r0.st.taint = 0 /\ e0 # eI)]
 
-Enabled(c, op) == Step("I", c["I"], op).status \in {"ok", "error"} /\ ~MakesCycle(c["I"], op)
+Apply(h, c, g, o, op) == Apply2(h, c, g, o, op, Step("I", c["I"], op))
+EnabledR(c, op, rI) == rI.status \in {"ok", "error"} /\ ~MakesCycle(c["I"], op)
+Enabled(c, op) == EnabledR(c, op, Step("I", c["I"], op))
 
 RECURSIVE Run(_, _)
 Run(s, ops) == IF ops = <<>> THEN s ELSE Run(Apply(s.hist, s.cur, s.gst, s.out, Head(ops)), Tail(ops))
@@ -354,12 +356,15 @@ NextOp ==
         /\ ~fin
         /\ (Mode = "breadth" \/ Len(hist) < MaxOps)
         /\ \E op \in Alphabet(Len(hist) + 1) :
-             /\ Enabled(cur, op)
-             /\ LET s == Apply(hist, cur, gst, out, op) IN
+             LET rI == Step("I", cur["I"], op) IN
+             /\ EnabledR(cur, op, rI)
+             /\ LET s == Apply2(hist, cur, gst, out, op, rI) IN
                 /\ hist' = s.hist /\ cur' = s.cur /\ gst' = s.gst /\ out' = s.out /\ law' = s.law
                 /\ fin' = (s.fin \/ Mode = "breadth")
 
 Next == NextGiven \/ NextOp
+\* every variable is a function of (hist, idx)
+View == <<hist, idx>>
 Laws == law = {}
 
 \* compact JSON form of a tree: number, string, boolean, array, {"o": members}, "~null", "~unset"
